@@ -109,6 +109,11 @@ def run(seed, tier, replay=None):
               rng_c.choice([2, 3, 4, 5, 7, 10, 16, 25, 40]) if i % 12 else rng_c.choice([2, 3, 5])) for i in range(n_cont)]
     # (2) best-of-n levels next to 0 and next to 1 (every case)
     rng_x = C.rng_for("C02/extreme-levels", seed)
+    # (3) the caller's arrays: (i) about half of the float samples are handed over as a float64 ndarray that the caller modifies in place once
+    #     the bands are built (and again before the curves are judged) -- the three distributions are about the sample they were given;
+    #     (ii) ONE ns object per case goes into hi / pt / lo .quantile_tuning_curve for every q and both directions (the documented way to
+    #     invert the band), ONE level array into the three ppf, one point array into every cdf: bit-identical afterwards, every value judged
+    rng_m = C.rng_for("C02/caller-arrays", seed)
     reqs, meta = [], []
     for ci, (method, n) in enumerate(plan):
         containers = []
@@ -130,11 +135,16 @@ def run(seed, tier, replay=None):
         rep.count("a=" + ("-inf" if a == -INF else "min" if a == min(ys) else "below"))
         rep.count("b=" + ("inf" if b == INF else "max" if b == max(ys) else "above"))
         rep.count("conf=" + ("0" if conf == 0 else "1" if conf == 1 else "interior"))
+        ys_arr = np.array(ys, dtype=float) if ci < n_main and rng_m.random() < 0.5 else None
         try:
-            (lo, pt, hi), state = bands(ED, ys, conf, a, b, method, gseed)
+            (lo, pt, hi), state = bands(ED, ys if ys_arr is None else ys_arr, conf, a, b, method, gseed)
         except Exception as e:
             rep.violate(what="confidence_bands raised on a valid input", error=repr(e), input=inp, call="EmpiricalDistribution.confidence_bands")
             continue
+        if ys_arr is not None:
+            inp["caller_modified_its_array_in_place"] = [G.caller_mutation(rng_m, ys_arr)]
+            inp["sequence"] = "ys = np.array(ys); lo, pt, hi = EmpiricalDistribution.confidence_bands(ys, ...); <the statements above>; then the calls judged"
+            rep.count("caller_arrays:sample_ndarray_modified_in_place_after_confidence_bands")
         try:
             with warnings.catch_warnings():
                 warnings.simplefilter("ignore")
@@ -168,12 +178,20 @@ def run(seed, tier, replay=None):
             d0 = level if side == 0 else 1.0 - level
             rep.count("qtc_level:%s_by_%s:%s" % ("next_to_0" if side == 0 else "next_to_1", how,
                                                  "exactly_0_or_1" if d0 == 0 else "within_1e%d" % int(np.ceil(np.log10(d0)))))
+        # one ns array for several q (below): lv[:24] is n-major, 3 n x 4 q x 2 directions, but the random q was drawn per n -- add the levels of
+        # the first n's random q at the other two n (no new draws), so that every (n, q, direction) of the shared-array calls has its model value
+        nns, q_rand, x0 = [lv[0][0], lv[8][0], lv[16][0]], lv[2][1], len(lv)
+        for k in (1, 2):
+            for mn in (False, True):
+                level = float(1 - (1 - q_rand) ** (1 / nns[k])) if mn else float(q_rand ** (1 / nns[k]))
+                lv.append((nns[k], q_rand, mn, min(1.0, max(0.0, level))))
         mid = [float(x) / 2 + float(y) / 2 for x, y in zip(L, U)]       # a distribution function inside the band
         for name, d, lev in (("lo", lo, L), ("pt", pt, M), ("hi", hi, U), ("inside", None, mid)):
             reqs.append(("band.ppf", f"{band_line(ys, a, b, lev)} {C.flist([x[3] for x in lv])}"))
             meta.append(dict(ci=ci, kind="qtc" if d is not None else "inside", name=name, d=d, lv=lv, inp=inp, ri=len(reqs) - 1, hi=hi, lo=lo))
         # direct clauses on the code's output
         yq = np.array(qs)
+        yq_kept = yq.tobytes()
         cl, cp, ch = lo.cdf(yq), pt.cdf(yq), hi.cdf(yq)
         rep.case(("bracket", tuple(inp["ys"]), inp["a"], inp["b"], conf, method))
         if np.any(cl > cp + 1e-12) or np.any(cp > ch + 1e-12):
@@ -181,7 +199,8 @@ def run(seed, tier, replay=None):
             rep.violate(what="lo.cdf(y) <= pt.cdf(y) <= hi.cdf(y) fails", input=dict(inp, y=C.fhex(qs[k]), y_float=qs[k]),
                         observed=[float(cl[k]), float(cp[k]), float(ch[k])], call="EmpiricalDistribution.confidence_bands")
         if not (pt == ED(ys, a=a, b=b)):
-            rep.violate(what="the point estimate is not the empirical distribution of the sample with the given bounds", input=inp)
+            rep.violate(what="the point estimate is not the empirical distribution of the sample with the given bounds"
+                             + (" (the caller modified the array it had passed as the sample in place afterwards)" if ys_arr is not None else ""), input=dict(inp))
         for nn, q, mn, _ in lv:
             with warnings.catch_warnings():
                 warnings.simplefilter("ignore")
@@ -192,6 +211,63 @@ def run(seed, tier, replay=None):
                             call="EmpiricalDistribution.quantile_tuning_curve")
         qtc_ri = {mt["name"]: mt["ri"] for mt in meta[-4:]}
         meta[-1].update(ri_lo=qtc_ri["lo"], ri_hi=qtc_ri["hi"])
+        # the caller's argument objects: `ns = np.array(...); hi.quantile_tuning_curve(ns); pt.quantile_tuning_curve(ns); lo.quantile_tuning_curve(ns)`
+        grids = [G.SharedArg(nns, "float64")] + ([G.SharedArg(nns, ("list", "tuple")[(ci // 3) % 2])] if ci % 3 == 0 else [])
+        stored = []
+        for S in grids:
+            rep.count("shared_ns_object:quantile_tuning_curve:" + S.container)
+            for qi in range(4):
+                for mi, mn in enumerate((False, True)):
+                    q = lv[2 * qi][1]               # 0.5, q_rand, 0.0, 1.0
+                    vin = dict(inp, ns=nns, ns_container=S.container, q=q, minimize=mn)
+                    vals = {}
+                    for name, d in (("hi", hi), ("pt", pt), ("lo", lo)):
+                        cl_ = f"{name}.quantile_tuning_curve(ns, q={q!r}, minimize={mn})"
+                        try:
+                            with warnings.catch_warnings():
+                                warnings.simplefilter("ignore")
+                                out = d.quantile_tuning_curve(S.obj, q=q, minimize=mn)
+                        except Exception as e:  # noqa: BLE001
+                            S.changed_by(cl_ + f" raised {e!r}")
+                            rep.violate(what="quantile_tuning_curve raised on a valid input (one ns object passed to hi, pt and lo)", error=repr(e),
+                                        input=dict(vin, band=name, ns_object_now=S.current(), calls_on_this_object=list(S.calls)),
+                                        call="EmpiricalDistribution.confidence_bands(...)." + cl_)
+                            break
+                        dmg = S.changed_by(cl_)
+                        if dmg:
+                            rep.violate(what="quantile_tuning_curve modified the caller's array in place (hi, pt and lo are to be evaluated on ONE grid ns: the "
+                                             "next curve is computed on what this call left there)", input=dict(vin, band=name), expected=nns, observed=dmg,
+                                        call="EmpiricalDistribution.confidence_bands(...)." + cl_)
+                        if np.shape(out) != (len(nns),):
+                            rep.violate(what="quantile_tuning_curve output shape differs from ns shape", input=dict(vin, band=name), observed=list(np.shape(out)))
+                            break
+                        vals[name] = [float(x) for x in out]
+                    if len(vals) < 3:
+                        continue
+                    rep.case(("qtc-shared-order", S.container, tuple(inp["ys"]), inp["a"], inp["b"], conf, method, qi, mn))
+                    for k in range(len(nns)):
+                        if not (vals["hi"][k] <= vals["pt"][k] <= vals["lo"][k]):
+                            rep.violate(what="hi.quantile_tuning_curve <= pt.quantile_tuning_curve <= lo.quantile_tuning_curve fails (the three curves "
+                                             "evaluated on one ns array, in this order)",
+                                        input=dict(vin, k=k, n=nns[k], calls_on_this_object=list(S.calls), ns_object_now=S.current()),
+                                        observed=[vals["hi"][k], vals["pt"][k], vals["lo"][k]], call="EmpiricalDistribution.quantile_tuning_curve")
+                            break
+                    stored.append((S, qi, mi, vals, vin))
+        meta.append(dict(ci=ci, kind="qtc_arr", name="shared", d=None, lv=lv, inp=inp, ri=qtc_ri["pt"], ris=dict(qtc_ri), stored=stored, nns=nns, x0=x0))
+        levs = G.SharedArg([x[3] for x in lv], "float64")
+        pp = {}
+        for name, d in (("hi", hi), ("pt", pt), ("lo", lo)):
+            try:
+                pp[name] = [float(x) for x in d.ppf(levs.obj)]
+            except Exception as e:  # noqa: BLE001
+                rep.violate(what="ppf raised on a valid input (one array of levels passed to hi, pt and lo)", error=repr(e),
+                            input=dict(inp, band=name, qs_now=levs.current()), call=f"EmpiricalDistribution.confidence_bands(...).{name}.ppf(qs)")
+                continue
+            dmg = levs.changed_by(f"{name}.ppf(qs)")
+            if dmg:
+                rep.violate(what="ppf modified the caller's array in place", input=dict(inp, band=name, qs=[x[3] for x in lv]), observed=dmg,
+                            call=f"EmpiricalDistribution.confidence_bands(...).{name}.ppf(qs)")
+        meta.append(dict(ci=ci, kind="ppf_arr", name="shared", d=None, lv=lv, inp=inp, ri=qtc_ri["pt"], ris=dict(qtc_ri), pp=pp))
         # the same sample in other containers: judged by the same exact model (the replies of the requests above), plus the direct clauses
         for label, obj in (containers if method in ("dkw", "ks") else containers[:2]):
             inp_c = dict(inp, sample_container=label, ys_values=[int(v) if label != "float32" else v for v in ys])
@@ -257,6 +333,12 @@ def run(seed, tier, replay=None):
             if np.any(lo4.cdf(yq) > cl + 1e-12) or np.any(hi4.cdf(yq) < ch - 1e-12):
                 rep.violate(what="raising the confidence narrows the band", input=dict(inp, confidence2=conf2),
                             call="EmpiricalDistribution.confidence_bands")
+        if yq.tobytes() != yq_kept:
+            rep.violate(what="cdf modified the caller's array of points in place (the same array goes into lo.cdf, pt.cdf, hi.cdf and the bands of "
+                             "the permuted / mapped / widened variants)", input=dict(inp, ys_queried=[C.fhex(v) for v in qs]),
+                        observed=[float(v) for v in yq[:12]], call="EmpiricalDistribution.confidence_bands(...).cdf(points)")
+        if ys_arr is not None:
+            inp["caller_modified_its_array_in_place"] = inp["caller_modified_its_array_in_place"] + [G.caller_mutation(rng_m, ys_arr)]
     replies = drv.run(reqs)
     for mt in meta:
         r = replies[mt["ri"]]
@@ -277,6 +359,42 @@ def run(seed, tier, replay=None):
                                      f"(levels from the documented construction) to 1e-12",
                                 input=dict(inp, y=C.fhex(y), y_float=y, band=mt["name"]), expected=str(mv), observed=float(iv),
                                 call="EmpiricalDistribution.confidence_bands(...).cdf")
+        elif mt["kind"] == "qtc_arr":
+            for S, qi, mi, vals, vin in mt["stored"]:
+                for name in ("hi", "pt", "lo"):
+                    rr = replies[mt["ris"][name]]
+                    if rr is None:
+                        continue
+                    for k, nn in enumerate(mt["nns"]):
+                        i = (k * 4 + qi) * 2 + mi if (qi != 1 or k == 0) else mt["x0"] + (k - 1) * 2 + mi
+                        assert mt["lv"][i][:3] == (nn, vin["q"], vin["minimize"])
+                        mv, margin = C.parse_ext(rr[2 * i]), C.parse_ext(rr[2 * i + 1])
+                        if margin <= TOL:
+                            rep.skip("qtc_level_within_1e-12_of_a_band_level")
+                            continue
+                        rep.case(("qtc-shared", S.container, name, tuple(inp["ys"]), inp["a"], inp["b"], inp["confidence"], inp["method"], nn, qi, mi))
+                        if not same_value(vals[name][k], mv):
+                            rep.violate(what=f"{name} band: quantile_tuning_curve(ns)[k] is not the band distribution's ppf at the best-of-n level of the k-th n the "
+                                             f"caller put into the array that it passes to hi, pt and lo",
+                                        input=dict(vin, band=name, k=k, n=nn, calls_on_this_object=list(S.calls), ns_object_now=S.current()),
+                                        expected=str(mv), observed=vals[name][k], call="EmpiricalDistribution.confidence_bands(...).quantile_tuning_curve(ns)")
+        elif mt["kind"] == "ppf_arr":
+            for name, out in mt["pp"].items():
+                rr = replies[mt["ris"][name]]
+                if rr is None or len(out) != len(mt["lv"]):
+                    if rr is not None:
+                        rep.violate(what="ppf output shape differs from the shape of the levels", input=dict(inp, band=name), observed=len(out))
+                    continue
+                for i, (nn, q, mn, level) in enumerate(mt["lv"]):
+                    mv, margin = C.parse_ext(rr[2 * i]), C.parse_ext(rr[2 * i + 1])
+                    if margin <= TOL:
+                        rep.skip("ppf_level_within_1e-12_of_a_band_level")
+                        continue
+                    rep.case(("ppf-shared", name, tuple(inp["ys"]), inp["a"], inp["b"], inp["confidence"], inp["method"], level))
+                    if not same_value(out[i], mv):
+                        rep.violate(what=f"{name} band: ppf(q) is not inf{{y in [a,b]: q <= cdf(y)}} of the band distribution (one array of levels passed to hi, pt, lo)",
+                                    input=dict(inp, band=name, q=C.fhex(level), q_float=level), expected=str(mv), observed=out[i],
+                                    call=f"EmpiricalDistribution.confidence_bands(...).{name}.ppf(qs)")
         elif mt["kind"] == "inside":
             # "any CDF lying inside the CDF band has its tuning curve inside the tuning-curve band": F with the levels (L+U)/2 on the
             # same points lies inside the band; its exact quantile must lie between the code's hi and lo curves (levels within 1e-12
@@ -318,7 +436,11 @@ def run(seed, tier, replay=None):
              "Quantile curves also at best-of-n levels within 1e-16..1e-7 of 0 and of 1 (reached through tiny q / q next to 1, or through "
              "n in ~0.01..0.1 / 1e7..1e14), incl. a CDF inside the band (levels (L+U)/2) judged exactly against the code's hi/lo curves. "
              "Container stratum: integer-valued unsorted samples as Python ints, every integer dtype (signed and unsigned) that holds them "
-             "and float32, each judged by the same exact band model as the float64 sample.",
+             "and float32, each judged by the same exact band model as the float64 sample. The caller's arrays (own generator): half of the "
+             "float samples are passed as a float64 ndarray which the caller modifies in place after confidence_bands returned; one ns object "
+             "(float64 ndarray; list / tuple on every third case) goes into hi, pt, lo .quantile_tuning_curve for 4 q x 2 directions, one level "
+             "array into the three ppf, one point array into every cdf: objects bit-identical afterwards, ordering and every value judged by "
+             "the exact band model at the caller's numbers.",
         extra=dict(driver_lines=drv.lines))
 
 
